@@ -117,6 +117,44 @@ pub fn run(ctx: &Ctx) -> Outcome {
             }
             rep.add("exhaustive_small_alphabet_pairs", n);
         }
+        // prefix-length sweep: A = L ordinary words for EVERY L in 0..=400 (thorough 0..=1200), B = a spelled number of several
+        // words: however far back the first part reaches, and wherever B falls in the token sequence, B is read the same
+        {
+            let max_l: usize = if ctx.quick() { 400 } else { 1200 };
+            for (li, lex) in ls.lex.iter().enumerate() {
+                let code = lex.code;
+                if lex.fillers.len() < 4 {
+                    continue;
+                }
+                let sep = format!(" {} {} {}. ", lex.fillers[0], lex.fillers[1], lex.fillers[2]);
+                let mut a = String::new();
+                for l in 0..=max_l {
+                    if l > 0 {
+                        if l > 1 {
+                            a.push(' ');
+                        }
+                        a.push_str(&lex.fillers[(l * 7 + li) % lex.fillers.len()]);
+                    }
+                    if l % nw != w {
+                        continue;
+                    }
+                    if ctx.elapsed() > ctx.budget_s * 0.5 {
+                        rep.count("prefix_sweep_cut_by_budget");
+                        break;
+                    }
+                    let n = [25_317u64, 1_200_045, 99, 21_021][l % 4];
+                    let b = format!("{} {} {}", spell::cardinal(code, n), lex.fillers[3], spell::cardinal(code, 7 + (l as u64 % 90)));
+                    for &t in [0.0, 10.0].iter() {
+                        if let Some(msg) = check_split(&ls, code, &a, &sep, &b, t) {
+                            rep.violation(&format!("{}:split-long-prefix", code), jobj! {"kind" => "split", "lang" => code, "a" => a.as_str(), "s" => sep.as_str(), "b" => b.as_str()}, format!("[{} prefix of {} words] {}", code, l, msg.chars().take(600).collect::<String>()));
+                            break;
+                        }
+                    }
+                    rep.eval(hash_bytes(&[code.as_bytes(), b"sweep", &(l as u32).to_le_bytes()]), true);
+                    rep.count("prefix_length_sweep_cases");
+                }
+            }
+        }
         for i in 0..(n_split / nw as u64) {
             if i % 128 == 0 && ctx.elapsed() > ctx.budget_s * 0.65 {
                 break;
@@ -178,7 +216,7 @@ pub fn run(ctx: &Ctx) -> Outcome {
     if !ctx.quick() {
         super::legs::fuzz_leg(ctx, &mut rep, 45);
     }
-    let rule = "clause 1: every pair of texts A, B of 1..2 words (thorough: B up to 3) over a 16/17-word alphabet per language around a fixed separator at thresholds 0 and 10 (counter exhaustive_small_alphabet_pairs); texts A, B from hostile text, linking sentences and the annotator-state templates (fr: determiner x number|filler x neuf x number|filler|virgule, several per text; en: o between number words / fillers / punctuation), S = 3..5 self-checked filler words ending a sentence, thresholds 0,5,10: rewrite(A S B) == rewrite(A) S rewrite(B); clause 2: spelled a, punctuation p (19 kinds, each containing a non-space character other than - and ', or a dash set off by spaces on both sides), spelled b -> 'a p b'; non-trivial = both parts contain something that is rewritten / every punctuated pair";
+    let rule = "clause 1: prefix-length sweep (A = L filler words for every L in 0..400, thorough 0..1200; B = a spelled multi-word number; counter prefix_length_sweep_cases); every pair of texts A, B of 1..2 words (thorough: B up to 3) over a 16/17-word alphabet per language around a fixed separator at thresholds 0 and 10 (counter exhaustive_small_alphabet_pairs); texts A, B from hostile text, linking sentences and the annotator-state templates (fr: determiner x number|filler x neuf x number|filler|virgule, several per text; en: o between number words / fillers / punctuation), S = 3..5 self-checked filler words ending a sentence, thresholds 0,5,10: rewrite(A S B) == rewrite(A) S rewrite(B); clause 2: spelled a, punctuation p (19 kinds, each containing a non-space character other than - and ', or a dash set off by spaces on both sides), spelled b -> 'a p b'; non-trivial = both parts contain something that is rewritten / every punctuated pair";
     finish(ctx, rep, rule, &["separator words are fillers self-checked against the running library (never number words, linking words or annotator triggers)", "clause 2 is conditioned on both numbers passing their own C01 round-trip"], vec![])
 }
 
